@@ -365,6 +365,96 @@ func (c *Ctx) c18Attr() {
 		leaks   []string
 		filters []*ssa.Call // cssFilter calls on a tainted value
 	}
+	// filterTable: v is the function looked up, under the lower-cased attribute name, in a
+	// package-level table of per-attribute filters whose "style" entry is the CSS filter
+	// (attrSanitizers[strings.ToLower(string(key))]). Returns the lookup.
+	var keyTaint map[ssa.Value]bool
+	tableOK := map[*ssa.Global]int{} // 0 unknown, 1 yes, 2 no
+	filterTable := func(v ssa.Value) *ssa.Lookup {
+		lk, ok := v.(*ssa.Lookup)
+		if !ok {
+			if ex, isEx := v.(*ssa.Extract); isEx && ex.Index == 0 {
+				lk, ok = ex.Tuple.(*ssa.Lookup)
+			}
+		}
+		if !ok || lk == nil {
+			return nil
+		}
+		u, ok := lk.X.(*ssa.UnOp)
+		if !ok || u.Op != token.MUL {
+			return nil
+		}
+		g, ok := u.X.(*ssa.Global)
+		if !ok || g.Pkg == nil || g.Pkg.Pkg.Path() != eng.Mod+"/"+sanRel {
+			return nil
+		}
+		// index: lower(key)
+		lc, ok := lk.Index.(*ssa.Call)
+		if !ok || eng.CalleeName(lc.Common()) != "strings.ToLower" {
+			return nil
+		}
+		arg := lc.Call.Args[0]
+		if !(keyTaint[arg] || keyTaint[eng.StripConv(arg)] || keyTaint[p.Actual(eng.StripConv(arg))]) {
+			return nil
+		}
+		if tableOK[g] == 0 {
+			tableOK[g] = 2
+			style, clean := false, true
+			scan := append([]*ssa.Function{}, sanFns...)
+			if sp := p.SSA.Package(p.Pkg(sanRel)); sp != nil {
+				if ini := sp.Func("init"); ini != nil {
+					have := false
+					for _, f := range scan {
+						if f == ini {
+							have = true
+						}
+					}
+					if !have {
+						scan = append(scan, ini)
+					}
+				}
+			}
+			for _, fn2 := range scan {
+				isInit := fn2.Name() == "init" && fn2.Parent() == nil
+				eng.EachInstr(fn2, func(in ssa.Instruction) {
+					switch y := in.(type) {
+					case *ssa.Store:
+						if y.Addr == ssa.Value(g) {
+							mm, isMake := y.Val.(*ssa.MakeMap)
+							if !isInit || !isMake {
+								clean = false
+								return
+							}
+							if mm.Referrers() != nil {
+								for _, ref := range *mm.Referrers() {
+									if mu, ok := ref.(*ssa.MapUpdate); ok {
+										k, isC := eng.ConstString(mu.Key)
+										f, _, isF := eng.FuncValueOf(mu.Value)
+										if !isC || !isF {
+											clean = false
+										} else if k == "style" {
+											style = f == cssFilter
+										}
+									}
+								}
+							}
+						}
+					case *ssa.MapUpdate:
+						if lu, ok := y.Map.(*ssa.UnOp); ok && lu.X == ssa.Value(g) {
+							clean = false
+						}
+					}
+				})
+			}
+			if style && clean {
+				tableOK[g] = 1
+			}
+		}
+		if tableOK[g] != 1 {
+			return nil
+		}
+		return lk
+	}
 	propagate := func(src ssa.Value, isValue bool) taintRes {
 		res := taintRes{tainted: map[ssa.Value]bool{src: true}, fields: map[*types.Var]bool{}}
 		work := []ssa.Value{src}
@@ -420,6 +510,19 @@ func (c *Ctx) c18Attr() {
 								add(g.Params[i])
 							}
 						}
+					case eng.StaticCallee(x.Common()) == nil && !x.Call.IsInvoke() && filterTable(x.Call.Value) != nil:
+						// the per-attribute filter selected from the table by the attribute's name
+						res.filters = append(res.filters, x)
+						add(x)
+					case eng.StaticCallee(x.Common()) == nil && !x.Call.IsInvoke() && c18FuncOf(p, x.Call.Value) != nil:
+						// a callback the attribute loop runs for each attribute (visit(key, val)):
+						// the taint continues in the function literal's parameters
+						g := c18FuncOf(p, x.Call.Value)
+						for i, a := range x.Call.Args {
+							if a == v && i < len(g.Params) {
+								add(g.Params[i])
+							}
+						}
 					case name == "builtin.append":
 						if isValue {
 							// appending a string to a []byte writes it out; appending records to a
@@ -460,8 +563,9 @@ func (c *Ctx) c18Attr() {
 		}
 		return res
 	}
-	tv := propagate(val, true)
 	tk := propagate(key, false)
+	keyTaint = tk.tainted
+	tv := propagate(val, true)
 	tainted, escapes, leaks := tv.tainted, tv.escapes, tv.leaks
 	_ = tainted
 	var probs []string
@@ -475,11 +579,12 @@ func (c *Ctx) c18Attr() {
 	type alt struct {
 		v  ssa.Value
 		at *ssa.BasicBlock
+		to *ssa.BasicBlock // the block of the phi that merges the alternatives, if any
 	}
 	var alternatives func(v ssa.Value, depth int) []alt
 	alternatives = func(v ssa.Value, depth int) []alt {
 		if depth > 3 {
-			return []alt{{v, nil}}
+			return []alt{{v, nil, nil}}
 		}
 		switch x := v.(type) {
 		case *ssa.Parameter:
@@ -495,6 +600,7 @@ func (c *Ctx) c18Attr() {
 				for _, a := range sub {
 					if a.at == nil {
 						a.at = x.Block().Preds[i]
+						a.to = x.Block()
 					}
 					out = append(out, a)
 				}
@@ -530,7 +636,7 @@ func (c *Ctx) c18Attr() {
 				return out
 			}
 		}
-		return []alt{{v, nil}}
+		return []alt{{v, nil, nil}}
 	}
 	underStyle := func(at *ssa.BasicBlock) bool {
 		if at == nil {
@@ -564,6 +670,64 @@ func (c *Ctx) c18Attr() {
 			continue
 		}
 		filtered, rawUnder := false, false
+		// table form: the value is filter(raw) where the table has a filter for the attribute's
+		// name, and the raw value only where the lookup came back nil
+		var tableLk *ssa.Lookup
+		for _, a := range alts {
+			if fc, isCall := a.v.(*ssa.Call); isCall && eng.StaticCallee(fc.Common()) == nil && !fc.Call.IsInvoke() {
+				if lk := filterTable(fc.Call.Value); lk != nil {
+					tableLk = lk
+				}
+			}
+		}
+		if tableLk != nil {
+			okTable := true
+			for _, a := range alts {
+				if fc, isCall := a.v.(*ssa.Call); isCall && eng.StaticCallee(fc.Common()) == nil && !fc.Call.IsInvoke() && filterTable(fc.Call.Value) == tableLk {
+					continue
+				}
+				if cst, isC := a.v.(*ssa.Const); isC && cst.Value != nil {
+					continue
+				}
+				// a raw alternative: only on the side where the table had no filter
+				nilSide := false
+				if a.at != nil {
+					var vals []ssa.Value
+					vals = append(vals, tableLk)
+					if tableLk.Referrers() != nil {
+						for _, ref := range *tableLk.Referrers() {
+							if ex, ok := ref.(*ssa.Extract); ok {
+								vals = append(vals, ex)
+							}
+						}
+					}
+					for _, b := range a.at.Parent().Blocks {
+						for k := 0; k < len(b.Succs) && len(b.Succs) == 2; k++ {
+							rel, ok := eng.EdgeRel(b, k)
+							if !ok || rel.Op != token.EQL || !eng.IsNilConst(rel.Y) {
+								continue
+							}
+							isLk := false
+							for _, lv := range vals {
+								if rel.X == lv {
+									isLk = true
+								}
+							}
+							if isLk && (eng.EdgeDominates(b, k, a.at) || b == a.at && a.to != nil && b.Succs[k] == a.to) {
+								nilSide = true
+							}
+						}
+					}
+				}
+				if !nilSide {
+					okTable = false
+				}
+			}
+			if okTable {
+				styleOK = true
+			}
+			continue
+		}
 		for _, a := range alts {
 			fc, isCall := a.v.(*ssa.Call)
 			if isCall && eng.StaticCallee(fc.Common()) == cssFilter {
@@ -835,9 +999,19 @@ func (c *Ctx) c18CSS() {
 	// write is dominated by the true edge of a flag that is true only where the property passed
 	// the allow-list
 	var allowedFlag func(v ssa.Value, at *ssa.BasicBlock, depth int) bool
+	flagBusy := map[*ssa.Phi]bool{}
 	allowedFlag = func(v ssa.Value, at *ssa.BasicBlock, depth int) bool {
-		if depth > 4 {
+		if depth > 6 {
 			return false
+		}
+		// a flag carried round the token loop (keep stays what it was until the next
+		// declaration begins): the phi seen again adds no new source
+		if ph, isPhi := v.(*ssa.Phi); isPhi {
+			if flagBusy[ph] {
+				return true
+			}
+			flagBusy[ph] = true
+			defer delete(flagBusy, ph)
 		}
 		switch x := v.(type) {
 		case *ssa.Const:
@@ -1074,7 +1248,7 @@ func (c *Ctx) c18CSS() {
 	for _, fn := range writers {
 		fn := fn
 		eng.EachInstr(fn, func(in ssa.Instruction) {
-			if call, ok := in.(*ssa.Call); ok && strings.HasPrefix(eng.CalleeName(call.Common()), "(*bytes.Buffer).Write") && len(call.Call.Args) >= 2 && isTokenValue(call.Call.Args[1]) && okEdge(fn, call.Block()) {
+			if call, ok := in.(*ssa.Call); ok && (strings.HasPrefix(eng.CalleeName(call.Common()), "(*bytes.Buffer).Write") || strings.HasPrefix(eng.CalleeName(call.Common()), "(*strings.Builder).Write")) && len(call.Call.Args) >= 2 && isTokenValue(call.Call.Args[1]) && okEdge(fn, call.Block()) {
 				guardedWriter = true
 			}
 		})
@@ -1142,7 +1316,8 @@ func (c *Ctx) c18Text() {
 		probs = append(probs, "the input is never passed to html.EscapeString")
 	}
 	// returned value must derive from esc through the allowed post-processing table
-	allowed := map[string]bool{"(*regexp.Regexp).ReplaceAllStringFunc": true, "(*strings.Replacer).Replace": true, "strings.ReplaceAll": true, "fmt.Sprintf": true}
+	allowed := map[string]bool{"(*regexp.Regexp).ReplaceAllStringFunc": true, "(*strings.Replacer).Replace": true, "strings.ReplaceAll": true, "fmt.Sprintf": true,
+		"(*regexp.Regexp).ReplaceAllLiteralString": true, "(*regexp.Regexp).ReplaceAllString": true}
 	var derives func(v ssa.Value, depth int) bool
 	derives = func(v ssa.Value, depth int) bool {
 		if depth > 8 {
@@ -1236,6 +1411,16 @@ func (c *Ctx) c18Text() {
 					if call.Call.Args[0] != v {
 						continue
 					}
+					if !isC || markup(newS) {
+						probs = append(probs, "escaped text passes "+name+" at "+p.InstrPos(call)+" whose replacement re-introduces markup characters")
+					}
+				case "(*regexp.Regexp).ReplaceAllLiteralString", "(*regexp.Regexp).ReplaceAllString":
+					// like strings.ReplaceAll: parts of the escaped text are replaced by a
+					// constant, which may bring in markup only as complete tags
+					if len(call.Call.Args) != 3 || call.Call.Args[1] != v {
+						continue
+					}
+					newS, isC := eng.ConstString(call.Call.Args[2])
 					if !isC || markup(newS) {
 						probs = append(probs, "escaped text passes "+name+" at "+p.InstrPos(call)+" whose replacement re-introduces markup characters")
 					}
@@ -1756,6 +1941,18 @@ func (c *Ctx) c18TagFilter() *ssa.Function {
 		return cands[0]
 	}
 	if fn := p.Func(sanRel, "styleTagFilter"); fn != nil {
+		return fn
+	}
+	return nil
+}
+
+// c18FuncOf: the function a called value denotes: a function literal, or a function-typed
+// parameter bound (at the helper's only call site) to one.
+func c18FuncOf(p *eng.Prog, v ssa.Value) *ssa.Function {
+	if prm, ok := v.(*ssa.Parameter); ok {
+		v = p.Actual(prm)
+	}
+	if fn, isNil, ok := eng.FuncValueOf(v); ok && !isNil && fn != nil && len(fn.Blocks) > 0 {
 		return fn
 	}
 	return nil
